@@ -56,7 +56,7 @@ theorem frame_strict (cfg : SubCfg) (st : StereoCfg) (chans : List (List Int)) (
     (hch : 1 ≤ chans.length ∧ chans.length ≤ 8) (hlen : ∀ c ∈ chans, c.length = n) (hn : 1 ≤ n ∧ n < 2 ^ 16)
     (hb : 1 ≤ bps ∧ bps ≤ 24) (hx : ∀ c ∈ chans, ∀ x ∈ c, SubFrame.inRange bps x = true)
     (hnum : number < 2 ^ 31) (hmax : cfg.maxP ≤ 14)
-    (hlog : ∀ e ∈ log, e.Ok) (hfit : FrameFits log chans)
+    (hlog : ∀ e ∈ log, e.Ok)
     (h : encodeFrame cfg st chans bps rate number log = some (f, log'))
     (info : Info) (hinfo : info.rate = rate ∧ info.channels = chans.length ∧ info.bps = bps) (more : List Nat) :
     ∃ fb rep, f.bits rfcCrc8 rfcCrc16 = some fb ∧
@@ -74,7 +74,7 @@ theorem frame_strict (cfg : SubCfg) (st : StereoCfg) (chans : List (List Int)) (
   -- the independent encoding
   obtain ⟨hil, hisub, hifacts⟩ := encodeChannels_strict cfg (.independent chans.length) bps n hn hmax chans 0 log l1 indep
     hlen (fun i hi' => ⟨by simp [ChannelAssignment.bpsOffset]; omega, by simp [ChannelAssignment.bpsOffset]; omega,
-      by simpa [ChannelAssignment.bpsOffset] using hx _ (List.getElem_mem hi')⟩) hlog hfit.1 hi
+      by simpa [ChannelAssignment.bpsOffset] using hx _ (List.getElem_mem hi')⟩) hlog hi
   have hiwf : ∀ s ∈ indep, s.WF := by
     intro s hs
     obtain ⟨i, hi', rfl⟩ := List.getElem_of_mem hs
@@ -95,7 +95,6 @@ theorem frame_strict (cfg : SubCfg) (st : StereoCfg) (chans : List (List Int)) (
     have hrl : r.length = n := hlen r (by simp)
     have hlr : l.length = r.length := by omega
     obtain ⟨hmidr, hsider⟩ := midSide_range bps hb.1 l r (hx l (by simp)) (hx r (by simp))
-    obtain ⟨hfm, hfs⟩ := hfit.2 l r rfl
     obtain ⟨hml, _, hmfacts⟩ := encodeChannels_strict cfg .midSide bps n hn hmax
       [midOf l r, sideOf l r] 0 l1 l2 msSubs
       (by
@@ -109,13 +108,7 @@ theorem frame_strict (cfg : SubCfg) (st : StereoCfg) (chans : List (List Int)) (
           by simpa [ChannelAssignment.bpsOffset] using hmidr⟩
         ⟨by simp [ChannelAssignment.bpsOffset], by simp [ChannelAssignment.bpsOffset]; omega,
           by simpa [ChannelAssignment.bpsOffset] using hsider⟩)
-      (fun e he => hlog e (hisub e he))
-      (by
-        intro c hc
-        simp only [List.mem_cons, List.not_mem_nil, or_false] at hc
-        rcases hc with rfl | rfl
-        · exact LpcFits_mono log l1 _ hisub hfm
-        · exact LpcFits_mono log l1 _ hisub hfs) hm
+      (fun e he => hlog e (hisub e he)) hm
     split at h
     · rename_i sm ss heq2
       simp only at heq2
